@@ -157,6 +157,10 @@ func JWTKidAlg(tokenString string) (string, jwa.SignatureAlgorithm, error) {
 	if err != nil {
 		return "", "", err
 	}
+	// the signature must be over the bytes that were received, not over a normalized form of them
+	if err := jwx.ValidateCompactSerialization([]byte(tokenString)); err != nil {
+		return "", "", err
+	}
 
 	if len(j.Signatures()) != 1 {
 		return "", "", errors.New("incorrect number of signatures in JWT")
